@@ -92,3 +92,28 @@ Example C06_example :
         4607182418800017408; 4607182418800017408; 0;
         4611686018427387904; 4618441417868443648; 13837309855095848960]%Z.
 Proof. vm_compute. reflexivity. Qed.
+
+(* ---- binary64: deviation of the returned segment from the exact construction ---- *)
+Require Import PP.ErrorBound PP.ErrorRun PP.PolyFacts PP.Proofs.KernelBounds.
+Definition lin_e (i : nat) : expr := nth i k_linear__segment (Lit 0).
+(* safe_run additionally requires that the binary64 test `dx < EPSILON` and the exact one agree (otherwise both
+   branches are within the bound of each other only up to dx ~ eps, which the property excludes by its gap condition) *)
+Theorem C06_segment_float : forall (x0 y0 x1 y1 : F),
+  let env := [x0; y0; x1; y1] in
+  safe_run env (lin_e 1) -> safe_run env (lin_e 2) ->
+  let c0 := B2R (fev env (lin_e 1)) in let c1 := B2R (fev env (lin_e 2)) in
+  Rabs ((c0 + c1 * B2R x0) - B2R y0) <= err_run env (lin_e 1) + err_run env (lin_e 2) * Rabs (B2R x0).
+Proof.
+  intros x0 y0 x1 y1 env S1 S2 c0 c1.
+  destruct (eval_running env (lin_e 1) S1) as [_ E1]. destruct (eval_running env (lin_e 2) S2) as [_ E2].
+  assert (L := C06_segment_left (B2R x0) (B2R y0) (B2R x1) (B2R y1)).
+  change (rval env (lin_e 1)) with (seg_c0 (B2R x0) (B2R y0) (B2R x1) (B2R y1)) in E1.
+  change (rval env (lin_e 2)) with (seg_c1 (B2R x0) (B2R y0) (B2R x1) (B2R y1)) in E2.
+  fold c0 in E1. fold c1 in E2. rewrite <- L.
+  replace (c0 + c1 * B2R x0 - (seg_c0 (B2R x0) (B2R y0) (B2R x1) (B2R y1) + seg_c1 (B2R x0) (B2R y0) (B2R x1) (B2R y1) * B2R x0))
+    with ((c0 - seg_c0 (B2R x0) (B2R y0) (B2R x1) (B2R y1)) + (c1 - seg_c1 (B2R x0) (B2R y0) (B2R x1) (B2R y1)) * B2R x0) by ring.
+  eapply Rle_trans; [apply Rabs_triang|]. rewrite Rabs_mult.
+  assert (Rabs (c1 - seg_c1 (B2R x0) (B2R y0) (B2R x1) (B2R y1)) * Rabs (B2R x0) <= err_run env (lin_e 2) * Rabs (B2R x0))
+    by (apply Rmult_le_compat_r; [apply Rabs_pos|exact E2]).
+  lra.
+Qed.
